@@ -94,6 +94,24 @@ def product():
                 out.append((["bin", op, x, y], dict(vx, **vy), op))
             x, vx = operand_forms(a, "x", False)
             out.append((["bin", op, x, x], vx, op + " same"))
+    # type matrix of the remaining built-in operators: membership (plain and negated), string tests, boolean connectives, conditions
+    tvals = [(1, 0), (0, 0), (5, 1)] + OTHERS + [("s", "a"), ("b", False), ("l", (("n", 1), ("n", 2)))]
+    for op in ["in", "beginWith", "endWith", "&&", "||", "==", "!="]:
+        for a in tvals:
+            for b in tvals:
+                k += 1
+                lit = k % 2 == 0
+                x, vx = operand_forms(a, "x", lit)
+                y, vy = operand_forms(b, "y", lit)
+                out.append((["bin", op, x, y], dict(vx, **vy), op))
+                if op in ("in", "beginWith", "=="):
+                    out.append((["un", "not", ["bin", op, x, y]], dict(vx, **vy), "not " + op))
+    for a in tvals:
+        x, vx = operand_forms(a, "x", False)
+        out.append((["tern", x, ["num", "1", 0], ["num", "2", 0]], vx, "?:"))
+        for op in ("AND", "OR"):
+            out.append((["un", op, x], vx, "prefix " + op))
+            out.append((["un", op, ["list", [["bool", True], x]]], vx, "prefix " + op + " [..]"))
     for op in ["++", "--"]:
         for a in vals:
             for lit in (True, False):
